@@ -602,10 +602,15 @@ func ruleLPOffload(r *Run) {
 	}
 	anchor.OK("resolved").At(r.pos(fn.Pos()))
 	stagesParam := fn.Params[2]
+	// the scan loop: in extractQueryConditions or in a helper that is given the stage list
 	var loop *rangeLoop
-	for _, l := range rangeIndexLoops(fn) {
-		if l.X == ssa.Value(stagesParam) {
-			loop = l
+	lf := fn
+	grp := funcGroup(fn)
+	for _, gf := range grp {
+		for _, l := range rangeIndexLoops(gf) {
+			if l.X == ssa.Value(stagesParam) || (gf != fn && originValueIn(l.X, grp) == ssa.Value(stagesParam)) {
+				loop, lf = l, gf
+			}
 		}
 	}
 	ow := r.Ob("PV-WHOLE", "logqlengine.extractQueryConditions stage loop", "the offload scan ranges over the whole stage list")
@@ -618,7 +623,7 @@ func ruleLPOffload(r *Run) {
 	var elem ssa.Value
 	for _, in := range loop.Body.Instrs {
 		if u, ok := in.(*ssa.UnOp); ok && u.Op == token.MUL {
-			if ia, ok := u.X.(*ssa.IndexAddr); ok && ia.X == ssa.Value(stagesParam) {
+			if ia, ok := u.X.(*ssa.IndexAddr); ok && ia.X == loop.X {
 				elem = u
 			}
 		}
@@ -626,6 +631,15 @@ func ruleLPOffload(r *Run) {
 	if elem == nil {
 		r.Ob("LP-OFFLOAD", "logqlengine.extractQueryConditions", "stage element is read in the loop body").Undecide(r.pos(fn.Pos()), "element load not found")
 		return
+	}
+	// an offload is an append to a []logql.LineFilter inside the loop
+	isOffload := func(c ssa.CallInstruction) bool {
+		call, ok := c.(*ssa.Call)
+		if !ok || !isAppend(call) || !loop.Blocks[call.Block()] {
+			return false
+		}
+		sl, ok := call.Type().Underlying().(*types.Slice)
+		return ok && typeKey(sl.Elem()) == "LineFilter"
 	}
 	impls := implementersOf(p, logqlPkg, "PipelineStage")
 	oi := r.Ob("LP-OFFLOAD", "PipelineStage implementers", "every pipeline stage type is classified")
@@ -643,9 +657,9 @@ func ruleLPOffload(r *Run) {
 			o.Undecide("-", "stage type %s has no class in the table", name)
 			continue
 		}
-		w := &feWalker{Fn: fn, Hook: typeSwitchHook(elem, T)}
+		w := &feWalker{Fn: lf, Hook: typeSwitchHook(elem, T)}
 		ends := w.RunFrom(loop.Body, loop.Header)
-		breaks, continues, offloads := 0, 0, 0
+		breaks, continues, offloads, unguarded := 0, 0, 0, 0
 		for _, e := range ends {
 			// classify by the first block after the body that is the header (continue) or outside the loop (break)
 			kind := ""
@@ -665,9 +679,37 @@ func ruleLPOffload(r *Run) {
 			case "continue":
 				continues++
 			}
-			for _, s := range e.State.stores {
-				if n, _, ok := fieldNameOf(s.Store.Addr); ok && n == "Line" && loop.Blocks[s.Store.Block()] {
-					offloads++
+			if kind == "" {
+				if _, isRet := e.Term.(*ssa.Return); isRet && lf != fn {
+					kind = "break" // the helper returns from inside the loop: the scan stops
+					breaks++
+				}
+			}
+			off := false
+			for _, c := range e.State.calls {
+				if isOffload(c.Call) {
+					off = true
+				}
+			}
+			if off {
+				offloads++
+				// guards taken on the path: not an ip() filter, operator supported by the storage
+				notIP, supported := false, false
+				for _, f := range e.State.free {
+					f = normFact(f)
+					if n, _, ok := loadOfField(f.Cond); ok && n == "IP" && !f.Truth {
+						notIP = true
+					}
+					if c, ok := f.Cond.(*ssa.Call); ok && f.Truth {
+						if callee := staticCallee(c); callee != nil && callee.Name() == "Supports" && len(c.Call.Args) == 2 {
+							if n, _, ok := loadOfField(c.Call.Args[1]); ok && n == "Op" {
+								supported = true
+							}
+						}
+					}
+				}
+				if !notIP || !supported {
+					unguarded++
 				}
 			}
 		}
@@ -688,8 +730,10 @@ func ruleLPOffload(r *Run) {
 		}
 		if name == "LineFilter" {
 			o2 := r.Ob("LP-OFFLOAD", "extractQueryConditions[LineFilter] offload", "a line filter is offloaded only when the storage supports its operator and it is not an ip() filter")
-			if offloads > 0 {
-				o2.OK("%d offloading path(s)", offloads)
+			if unguarded > 0 {
+				o2.Fail(r.pos(lf.Pos()), "%d of %d offloading path(s) do not pass both guards (stage.IP is false, caps.Line.Supports(stage.Op) is true)", unguarded, offloads)
+			} else if offloads > 0 {
+				o2.OK("%d offloading path(s), each under !stage.IP and Supports(stage.Op)", offloads)
 			} else {
 				o2.OK("line filters are never offloaded (conservative)")
 			}
